@@ -308,7 +308,12 @@ class Vector():
 			a = a.to_object()            # now object vector
 			a[2] = "ryan"                # allowed - can mix types
 		"""
-		return Vector(list(self._underlying), dtype=object, name=self._name, as_row=self._display_as_row)
+		return Vector(
+			list(self._underlying),
+			dtype=DataType(object, nullable=any(x is None for x in self._underlying)),
+			name=self._name,
+			as_row=self._display_as_row
+		)
 
 	def alias(self, new_name):
 		"""
@@ -762,6 +767,9 @@ class Vector():
 					underlying = self._underlying
 				if target.nullable and not self._dtype.nullable:
 					self._dtype = self._dtype.with_nullable(True)
+			elif self._dtype is not None and not self._dtype.nullable and any(v is None for v in new_values):
+				# object columns take any value, but None still has to show in the schema
+				self._dtype = self._dtype.with_nullable(True)
 		# =====================================================================
 		# MUTATE — copy-on-write + fingerprint updates
 		# =====================================================================
